@@ -276,6 +276,18 @@ def check_dtypes(prog, rep, f, pub, call, entry, data, out):
         rep.add('Q1', f, entry, '%s = %s' % (name, norm(c)), c.lineno, ok,
                 'the array receives the running region counter: it must have a fixed wide dtype (float64 / int64), never '
                 'the input raster\'s own dtype - a uint8 raster with more than 255 regions would wrap labels (and reuse 0)')
+    # Q1 (wrapper): the label image may only be cast to a fixed wide dtype afterwards
+    res = None
+    for n in pub.own_nodes():
+        if isinstance(n, ast.Assign) and n.value is call and isinstance(n.targets[0], ast.Name):
+            res = n.targets[0].id
+    casts = [c for c in calls(pub.node) if short(c) == 'astype' and isinstance(c.func, ast.Attribute) and
+             res is not None and norm(c.func.value) == res]
+    for c in casts:
+        dt = norm(c.args[0]) if c.args else None
+        rep.add('Q1', pub, entry, norm(c), c.lineno, dt in WIDE_OK,
+                'the label image counts regions: it may only be converted to a fixed wide dtype, never back to the input '
+                'raster\'s dtype (int8 holds 127 labels, uint8 255)')
     # Q2: matching
     sites = [n for n in f.own_nodes() if isinstance(n, ast.Assign) and norm(n.targets[0]) == 'is_close']
     pm = parent_map(f.node)
